@@ -135,9 +135,10 @@ def coq_deps(target_v):
             continue
         seen.add(f)
         txt = strip_comments(open(f).read())
-        for m in re.finditer(r"From\s+RP\s+Require\s+(?:Import|Export)?\s*([^.]*)\.", txt):
-            for name in m.group(1).split():
-                cand = os.path.join(COQ, "theories", *name.split(".")) + ".v"
+        for m in re.finditer(r"From\s+RP(\.\w+)*\s+Require\s+(?:Import|Export)?\s*([^.]*)\.", txt):
+            sub = (m.group(0).split()[1]).split(".")[1:]
+            for name in m.group(2).split():
+                cand = os.path.join(COQ, "theories", *(sub + name.split("."))) + ".v"
                 todo.append(cand)
     return sorted(seen)
 
@@ -153,10 +154,27 @@ def count_obligations(files):
     return n, names
 
 
+def regenerate():
+    """Re-translate the table-like parts of /repo's working tree into coq/theories/Gen/*.v."""
+    sys.path.insert(0, os.path.join(VERIF, "gen"))
+    import translate
+    with flock("coq"):
+        try:
+            return translate.main(), None
+        except SystemExit as e:
+            return [], str(e)
+        except Exception as e:   # a construct the translator cannot handle is a broken obligation
+            return [], "translator failed: %r" % (e,)
+
+
 def coq_build(prop_file, timeout=1500):
     """Build theories/Props/<prop_file>.vo (full .vo build) and audit it.
     Returns dict(ok, log, obligations, discharged, theorems, assumptions, problems)."""
     target = "theories/Props/%s.vo" % prop_file
+    changed, terr = regenerate()
+    if terr:
+        return {"ok": False, "log": terr, "wall_s": 0, "problems": [terr], "obligations": 1, "discharged": 0,
+                "theorems": [], "files": [], "translator_error": terr}
     with flock("coq"):
         rc, out = sh("coq_makefile -f _CoqProject -o Makefile", cwd=COQ, timeout=120)
         if rc != 0:
@@ -368,6 +386,19 @@ def run_model(model_exe, lines, arith="release", **kw):
     return run_lines([model_exe, arith], lines, **kw)
 
 
+LOSSY_RE = re.compile(r"D(?:[0-9a-f]{2})*:")
+
+
+def mask_lossy(oi, om):
+    """Where the model reports the lossy-UTF-8 marker (host ff) the replacement text is not
+    modelled: mask the host in both outputs, everything else is still compared."""
+    if "Dff:" in om:
+        oi, om = LOSSY_RE.sub("D?:", oi), LOSSY_RE.sub("D?:", om)
+    if re.search(r"a=(ff/|[0-9a-f-]*/ff )", om):
+        oi, om = re.sub(r"a=\S+", "a=?", oi), re.sub(r"a=\S+", "a=?", om)
+    return oi, om
+
+
 def canon(line):
     """Canonicalise an output line: panic location dropped."""
     if line.startswith("PANIC"):
@@ -512,7 +543,8 @@ def diff_stats(rep, cases, impl, mod, prop, what_corr, lossy=lambda meta: False)
             continue
         if lossy(meta):
             continue
-        if canon(oi) != canon(om):
+        a, b = mask_lossy(oi, om)
+        if canon(a) != canon(b):
             n_diff += 1
             if first is None:
                 first = dict(kind=kind, line=line, meta=meta, impl=oi, model=om)
